@@ -5,6 +5,19 @@ From DnsV Require Import Model.Text Proofs.Quote Proofs.TextBase Proofs.TextName
 From Coq Require Import ZifyN ZifyNat ZifyBool.
 Open Scope N_scope.
 
+Ltac Zify.zify_post_hook ::= Z.div_mod_to_equations.
+
+Lemma u16_le32 : forall n, u16b n = true -> n <= max32.
+Proof. intros n H. unfold u16b, max16, max32 in *. lia. Qed.
+Lemma u16_lt : forall n, u16b n = true -> n < 65536.
+Proof. intros n H. unfold u16b, max16 in *. lia. Qed.
+Lemma ml_rt : forall ml, ml < 256 -> ((ml + 160) mod 256 + 96) mod 256 = ml.
+Proof. intros. lia. Qed.
+Lemma mod_le8 : forall x, x mod 256 <= max8.
+Proof. intros. unfold max8. lia. Qed.
+Lemma lt_le8 : forall x, x < 256 -> x <= max8.
+Proof. intros. unfold max8. lia. Qed.
+
 Section Records.
 Variable o : toracles.
 Variable serial : N.
@@ -54,7 +67,7 @@ Proof. intros n d H. apply getuint_print. unfold u32b in H. lia. Qed.
 Lemma getuint16 : forall n d, u16b n = true -> getuint max16 (print_dec n) d = n.
 Proof. intros n d H. apply getuint_print. unfold u16b in H. lia. Qed.
 Lemma parse_ip_text : forall ip, wf_ipb ip = true -> o_parse_ip o (ip_text o ip) = ip.
-Proof.
+Proof using o serial Hip_rt Hip_nil Hip_nosep.
   intros [a|] H; [|exact Hip_nil]. cbn [wf_ipb] in H. apply andb_true_iff in H. destruct H as [H1 H2].
   cbn [ip_text]. apply Hip_rt; [apply wf_bytesb_spec; assumption|apply Nat.eqb_eq; assumption].
 Qed.
@@ -104,14 +117,14 @@ Ltac side := repeat constructor;
 
 Ltac open_line :=
   unfold marshal, line_of, SEPC, parse_line; cbn [N.eqb Pos.eqb orb];
-  rewrite fields_marshal; [cbn [fld nth]| side | side | side | cbn [length]; lia].
+  rewrite fields_marshal; [cbn [fld nth]| side | side | side | apply Nat.leb_le; reflexivity].
 
 (* ------------------------------------------------------------------ parse (marshal r) = Ok (norm r) *)
 Lemma parse_soa : forall dom ns adm ser ref ret exp min ttl lo,
   wf_recordb o (RSoa dom ns adm ser ref ret exp min ttl lo) = true ->
   parse_line o serial (marshal o (RSoa dom ns adm ser ref ret exp min ttl lo)) =
   Ok (norm (RSoa dom ns adm ser ref ret exp min ttl lo)).
-Proof.
+Proof using o serial Hip_rt Hip_nil Hip_nosep.
   intros. cbn [wf_recordb] in H. split_wf H. open_line.
   - rewrite !unq_text by assumption. rewrite !getuint32 by assumption.
     rewrite getloc_loc by assumption. cbn [rbind norm].
@@ -124,7 +137,7 @@ Qed.
 Lemma parse_dot : forall dom ip ns ttl lo ser,
   wf_recordb o (RDot dom ip ns ttl lo ser) = true -> srv_lost o ns = false ->
   parse_line o serial (marshal o (RDot dom ip ns ttl lo ser)) = Ok (norm (RDot dom ip ns ttl lo ser)).
-Proof.
+Proof using o serial Hip_rt Hip_nil Hip_nosep.
   intros. cbn [wf_recordb] in H. split_wf H. open_line.
   rewrite !unq_text by assumption. rewrite !getuint32 by assumption.
   rewrite getloc_loc by assumption. rewrite parse_ip_text by assumption.
@@ -134,7 +147,7 @@ Qed.
 Lemma parse_ns : forall dom ip ns ttl lo,
   wf_recordb o (RNs dom ip ns ttl lo) = true -> srv_lost o ns = false ->
   parse_line o serial (marshal o (RNs dom ip ns ttl lo)) = Ok (norm (RNs dom ip ns ttl lo)).
-Proof.
+Proof using o serial Hip_rt Hip_nil Hip_nosep.
   intros. cbn [wf_recordb] in H. split_wf H. open_line.
   rewrite !unq_text by assumption. rewrite !getuint32 by assumption.
   rewrite getloc_loc by assumption. rewrite parse_ip_text by assumption.
@@ -144,7 +157,7 @@ Qed.
 Lemma parse_addr : forall dom wild ip ttl lo weight,
   wf_recordb o (RAddr dom wild ip ttl lo weight) = true ->
   parse_line o serial (marshal o (RAddr dom wild ip ttl lo weight)) = Ok (norm (RAddr dom wild ip ttl lo weight)).
-Proof.
+Proof using o serial Hip_rt Hip_nil Hip_nosep.
   intros. cbn [wf_recordb] in H. split_wf H. open_line.
   rewrite getdom_wtext by assumption. rewrite !getuint32 by assumption.
   rewrite getloc_loc by assumption. rewrite parse_ip_text by assumption. reflexivity.
@@ -153,7 +166,7 @@ Qed.
 Lemma parse_paddr : forall dom wild ip ttl lo,
   wf_recordb o (RPaddr dom wild ip ttl lo) = true ->
   parse_line o serial (marshal o (RPaddr dom wild ip ttl lo)) = Ok (norm (RPaddr dom wild ip ttl lo)).
-Proof.
+Proof using o serial Hip_rt Hip_nil Hip_nosep.
   intros. cbn [wf_recordb] in H. split_wf H. open_line.
   rewrite getdom_wtext by assumption. rewrite !getuint32 by assumption.
   rewrite getloc_loc by assumption. rewrite parse_ip_text by assumption. reflexivity.
@@ -162,7 +175,7 @@ Qed.
 Lemma parse_mx : forall dom ip mx dist ttl lo,
   wf_recordb o (RMx dom ip mx dist ttl lo) = true -> srv_lost o mx = false ->
   parse_line o serial (marshal o (RMx dom ip mx dist ttl lo)) = Ok (norm (RMx dom ip mx dist ttl lo)).
-Proof.
+Proof using o serial Hip_rt Hip_nil Hip_nosep.
   intros. cbn [wf_recordb] in H. split_wf H. open_line.
   rewrite !unq_text by assumption. rewrite !getuint32 by assumption.
   rewrite getloc_loc by assumption. rewrite parse_ip_text by assumption.
@@ -173,7 +186,7 @@ Lemma parse_srv : forall dom ip srv port pri weight ttl lo,
   wf_recordb o (RSrv dom ip srv port pri weight ttl lo) = true -> srv_lost o srv = false ->
   parse_line o serial (marshal o (RSrv dom ip srv port pri weight ttl lo)) =
   Ok (norm (RSrv dom ip srv port pri weight ttl lo)).
-Proof.
+Proof using o serial Hip_rt Hip_nil Hip_nosep.
   intros. cbn [wf_recordb] in H. split_wf H. open_line.
   rewrite !unq_text by assumption. rewrite !getuint32 by assumption. rewrite !getuint16 by assumption.
   rewrite getloc_loc by assumption. rewrite parse_ip_text by assumption.
@@ -183,7 +196,7 @@ Qed.
 Lemma parse_cname : forall dom wild cname ttl lo,
   wf_recordb o (RCname dom wild cname ttl lo) = true ->
   parse_line o serial (marshal o (RCname dom wild cname ttl lo)) = Ok (norm (RCname dom wild cname ttl lo)).
-Proof.
+Proof using o serial Hip_rt Hip_nil Hip_nosep.
   intros. cbn [wf_recordb] in H. split_wf H. open_line.
   rewrite getdom_wtext by assumption. rewrite !unq_text by assumption. rewrite !getuint32 by assumption.
   rewrite getloc_loc by assumption. reflexivity.
@@ -192,7 +205,7 @@ Qed.
 Lemma parse_ptr : forall dom host ttl lo,
   wf_recordb o (RPtr dom host ttl lo) = true ->
   parse_line o serial (marshal o (RPtr dom host ttl lo)) = Ok (norm (RPtr dom host ttl lo)).
-Proof.
+Proof using o serial Hip_rt Hip_nil Hip_nosep.
   intros. cbn [wf_recordb] in H. split_wf H. open_line.
   rewrite !unq_text by assumption. rewrite !getuint32 by assumption.
   rewrite getloc_loc by assumption. reflexivity.
@@ -201,7 +214,7 @@ Qed.
 Lemma parse_txt : forall dom wild txt ttl lo,
   wf_recordb o (RTxt dom wild txt ttl lo) = true ->
   parse_line o serial (marshal o (RTxt dom wild txt ttl lo)) = Ok (norm (RTxt dom wild txt ttl lo)).
-Proof.
+Proof using o serial Hip_rt Hip_nil Hip_nosep.
   intros. cbn [wf_recordb] in H. split_wf H. open_line.
   rewrite getdom_wtext by assumption. rewrite unq_quoted by assumption. rewrite !getuint32 by assumption.
   rewrite getloc_loc by assumption. reflexivity.
@@ -210,18 +223,18 @@ Qed.
 Lemma parse_aux : forall dom rtype rdata ttl lo,
   wf_recordb o (RAux dom rtype rdata ttl lo) = true ->
   parse_line o serial (marshal o (RAux dom rtype rdata ttl lo)) = Ok (norm (RAux dom rtype rdata ttl lo)).
-Proof.
+Proof using o serial Hip_rt Hip_nil Hip_nosep.
   intros. cbn [wf_recordb] in H. split_wf H. open_line.
   rewrite !unq_text by assumption. rewrite unq_quoted by assumption. rewrite (getuint32 ttl) by assumption.
-  rewrite (getuint_print max32 rtype) by (unfold u16b, max16, max32 in *; lia).
-  rewrite getloc_loc by assumption. cbn [rbind norm]. rewrite N.mod_small by (unfold u16b, max16 in *; lia).
+  rewrite (getuint_print max32 rtype) by (apply u16_le32; assumption).
+  rewrite getloc_loc by assumption. cbn [rbind norm]. rewrite N.mod_small by (apply u16_lt; assumption).
   reflexivity.
 Qed.
 
 Lemma parse_ipmap : forall dom lmap,
   wf_recordb o (RIpmap dom lmap) = true ->
   parse_line o serial (marshal o (RIpmap dom lmap)) = Ok (norm (RIpmap dom lmap)).
-Proof.
+Proof using o serial Hip_rt Hip_nil Hip_nosep.
   intros. cbn [wf_recordb] in H. split_wf H. open_line.
   rewrite !unq_text by assumption. rewrite getlmap_loc by assumption. reflexivity.
 Qed.
@@ -229,7 +242,7 @@ Qed.
 Lemma parse_csmap : forall dom lmap,
   wf_recordb o (RCsmap dom lmap) = true ->
   parse_line o serial (marshal o (RCsmap dom lmap)) = Ok (norm (RCsmap dom lmap)).
-Proof.
+Proof using o serial Hip_rt Hip_nil Hip_nosep.
   intros. cbn [wf_recordb] in H. split_wf H. open_line.
   rewrite !unq_text by assumption. rewrite getlmap_loc by assumption. reflexivity.
 Qed.
@@ -237,7 +250,7 @@ Qed.
 Lemma parse_net_rec : forall lo ip ones lmap,
   wf_recordb o (RNet lo ip ones lmap) = true ->
   parse_line o serial (marshal o (RNet lo ip ones lmap)) = Ok (norm (RNet lo ip ones lmap)).
-Proof.
+Proof using o serial Hip_rt Hip_nil Hip_nosep.
   intros. cbn [wf_recordb] in H.
   apply andb_true_iff in H. destruct H as [H Hc].
   apply andb_true_iff in H. destruct H as [H Hm].
@@ -257,16 +270,16 @@ Lemma parse_rangepoint : forall lmap ip ml null locid,
   wf_recordb o (RRangePoint lmap ip ml null locid) = true ->
   parse_line o serial (marshal o (RRangePoint lmap ip ml null locid)) =
   Ok (norm (RRangePoint lmap ip ml null locid)).
-Proof.
+Proof using o serial Hip_rt Hip_nil Hip_nosep.
   intros. cbn [wf_recordb] in H. split_wf H.
   apply Nat.eqb_eq in W1. apply wf_bytesb_spec in W2.
   destruct null.
   - unfold marshal. cbn [app]. unfold line_of, SEPC, parse_line. cbn [N.eqb Pos.eqb orb].
-    rewrite fields_marshal; [cbn [fld nth]| side | side | repeat constructor; apply Hip_nosep | cbn [length]; lia].
+    rewrite fields_marshal; [cbn [fld nth]| side | side | repeat constructor; apply Hip_nosep | apply Nat.leb_le; reflexivity].
     rewrite getlmap_loc by assumption. rewrite Hip_rt by assumption.
     rewrite getuint_nil. rewrite getloc_nil. reflexivity.
   - unfold marshal. cbn [app]. unfold line_of, SEPC, parse_line. cbn [N.eqb Pos.eqb orb].
-    rewrite fields_marshal; [cbn [fld nth]| side | side | | cbn [length]; lia].
+    rewrite fields_marshal; [cbn [fld nth]| side | side | | apply Nat.leb_le; reflexivity].
     2:{ constructor; [apply Hip_nosep|]. constructor; [apply nocomma_dec|]. constructor; [|constructor].
         apply nocomma_lmap. assumption. }
     rewrite getlmap_loc by assumption. rewrite Hip_rt by assumption.
@@ -277,9 +290,9 @@ Proof.
     assert (L2 : (length locid =? 2)%nat = true) by (pose proof W as Wc; unfold wf_lmapb in Wc; apply andb_true_iff in Wc; apply Wc).
     rewrite L2. cbn [negb andb norm]. apply N.ltb_lt in W0.
     destruct (is4 ip) eqn:V4.
-    + rewrite (getuint_print max8) by (unfold max8; lia).
-      do 2 f_equal. lia.
-    + rewrite (getuint_print max8) by (unfold max8; lia). reflexivity.
+    + rewrite (getuint_print max8) by apply mod_le8.
+      rewrite ml_rt by assumption. reflexivity.
+    + rewrite (getuint_print max8) by (apply lt_le8; assumption). reflexivity.
 Qed.
 
 (* ------------------------------------------------------------------ convert (norm r) = convert r *)
@@ -326,7 +339,7 @@ Qed.
 Lemma marshal_norm : forall r,
   wf_recordb o r = true -> finding_class o serial r = false ->
   marshal o (norm r) = marshal o r.
-Proof.
+Proof using o serial.
   intros r W F.
   destruct r; cbn [wf_recordb] in W; split_wf W; cbn [norm marshal];
     rewrite ?(text_nn o) by (apply wf_nameb_spec; assumption);
